@@ -79,6 +79,8 @@ def facts(im, paths):
 
 
 def evaluate(case):
+    if case.get("kind") == "export":
+        return evaluate_export(case)
     wd = tempfile.mkdtemp(prefix="c", dir=SCR)
     try:
         B = case["cfg"].get("bs", B0)
@@ -264,6 +266,55 @@ def zero_tail_cases(tier):
             yield dict(files=files, lines=[(1, fl, "glob", "z/*")], cfg=cfg, fset="zt")
 
 
+EXPORT_BASE = [(b"a", "dir"), (b"a/f1", "file"), (b"a/f2", "file"), (b"a/x", "dir"), (b"a/x/deep", "file"), (b"b", "dir"), (b"b/g", "file"), (b"c", "dir"), (b"c/h", "file")]
+EXPORT_LINKS = [(b"b/zz", b"a/f2"), (b"a/aa", b"b/g"), (b"top", b"a/x/deep"), (b"c/first", b"c/h"), (b"b/back", b"a/f1")]
+
+
+def export_cases(tier):
+    """--exportable: inode numbers are handed out in tree order, the export table is filled while directories are written; hard links make entries
+    arrive out of ascending inode order. Every subset of five links x {-e, -e -T, -e with a sort file}"""
+    import itertools as it
+    for r in range(0, len(EXPORT_LINKS) + 1):
+        for sub in it.combinations(range(len(EXPORT_LINKS)), r):
+            for cfg, sort in ((dict(comp="gzip", bs=B0, e=1), None), (dict(comp="lz4", bs=B0, e=1, T=1), None), (dict(comp="gzip", bs=B0, e=1), b"-3 c/h\n2 a/f1\n")):
+                if tier == "quick" and cfg.get("T") and r not in (1, 5):
+                    continue
+                yield dict(kind="export", links=list(sub), cfg=cfg, sort=sort, files=(), lines=None)
+
+
+def evaluate_export(case):
+    wd = tempfile.mkdtemp(prefix="x", dir=SCR)
+    try:
+        spec = [E(p, t, 0o755) if t == "dir" else E(p, "file", content=content_pattern(p.decode(), 300 + 7 * len(p))) for p, t in EXPORT_BASE]
+        spec += [E(EXPORT_LINKS[i][0], "link", target=EXPORT_LINKS[i][1]) for i in case["links"]]
+        r, img, argv = packcheck.pack(spec, case["cfg"], wd, sortfile=case["sort"])
+        label = "export family: links %s cfg %s sort %r" % ([(EXPORT_LINKS[i][0].decode(), EXPORT_LINKS[i][1].decode()) for i in case["links"]], json.dumps(case["cfg"], sort_keys=True), case["sort"])
+
+        def viol(fp, what):
+            fl = packcheck.artefact_files(wd, limit=200000)
+            fl["case.json"] = json.dumps(dict(kind="export", links=case["links"], cfg=case["cfg"], sort=case["sort"].decode() if case["sort"] else None))
+            return dict(status="violation", fp=fp, what=label + "\n" + what, files=fl)
+        if r.timeout or r.crashed or r.rc != 0:
+            return viol("C17|pack-fails|" + (r.crash_fingerprint() if r.crashed else "rc"), "rc=%d %s" % (r.rc, r.err.decode("latin1")[-800:]))
+        im, err = packcheck.decode(img)
+        if im is None:
+            return viol("C17|undecodable", err)
+        if im.violations:
+            return viol("C17|invalid-image|" + im.violations[0][0], "%s" % (im.violations[:3],))
+        if im.export is None:
+            return viol("C17|export-missing", "-e given but the image has no export table")
+        if any(v == 0xFFFFFFFFFFFFFFFF for v in im.export):
+            return viol("C17|export-entry-unset", "export table has unset entries: %r" % [i + 1 for i, v in enumerate(im.export) if v == 0xFFFFFFFFFFFFFFFF][:8])
+        for e in spec:
+            if e["type"] == "file" and (e["path"] not in im.tree or im.tree[e["path"]]["sha"] != hashlib.sha256(e["content"]).hexdigest()):
+                return viol("C17|content-changed", "file %r does not read back byte-exact" % e["path"])
+            if e["type"] == "link" and (e["path"] not in im.tree or im.tree[e["path"]]["ino"] != im.tree[e["target"]]["ino"]):
+                return viol("C17|tree-changed", "hard link %r is not the inode of %r" % (e["path"], e["target"]))
+        return dict(status="ok", sha=sha_file(img), nontrivial=True)
+    finally:
+        shutil.rmtree(wd, ignore_errors=True)
+
+
 def leak_cases(tier):
     """two- and three-line sort files in which a line WITHOUT a flag list follows a line with one (per-line state must not carry over): flags, glob mode"""
     B = B0
@@ -287,12 +338,16 @@ def main():
         packcheck.TOOLS.update(build.build_tools(build.variant("asan"), os.path.join(sd, "bin"), tools=["gensquashfs"]))
         if cr.replay:
             case = json.load(open(os.path.join(cr.replay, "case.json")))
+            if case.get("kind") == "export":
+                case["sort"] = case["sort"].encode() if case.get("sort") else None
+                print(evaluate_export(case))
+                return 1
             case["files"] = [f.encode("latin1") for f in case["files"]]
             if case["lines"] is not None:
                 case["lines"] = [tuple(l) for l in case["lines"]]
             print(evaluate(case))
             return 1
-        cl = list(cases(cr.tier)) + list(leak_cases(cr.tier)) + list(zero_tail_cases(cr.tier))
+        cl = list(cases(cr.tier)) + list(leak_cases(cr.tier)) + list(zero_tail_cases(cr.tier)) + list(export_cases(cr.tier))
         cr.coverage["planned_cases"] = len(cl)
         n_eval = 0
         seen = set()
